@@ -98,7 +98,50 @@ func TestVerifReplayC08(t *testing.T) {
 			}
 		}
 	}
-	fmt.Printf("REPLAY-NOT-REPRODUCED bounded search: %d templates with one constant attribute (values built from character references, &, quotes; both quote kinds) format to an accepted template with the same attribute value, and that to itself\n", n)
+	// constant properties of css components: name and value survive formatting byte for byte (the generator hashes
+	// the text into the class name)
+	cssProps := func(tf TemplateFile) (out []string) {
+		for _, nd := range tf.Nodes {
+			var props []CSSProperty
+			switch t := nd.(type) {
+			case CSSTemplate:
+				props = t.Properties
+			case *CSSTemplate:
+				props = t.Properties
+			}
+			for _, p := range props {
+				switch c := p.(type) {
+				case ConstantCSSProperty:
+					out = append(out, c.Name+"\x00"+c.Value)
+				case *ConstantCSSProperty:
+					out = append(out, c.Name+"\x00"+c.Value)
+				}
+			}
+		}
+		return out
+	}
+	for _, v := range []string{"red", "0   auto", "\"a  b\"", "opacity .2s ease,\n\t\ttransform .2s ease", "1px  solid\tblack", "url( 'a  b.png' )"} {
+		src := "package p\n\ncss quote() {\n\tcontent: " + v + ";\n\tmargin :  " + v + " ;\n}\n"
+		tf, err := ParseString(src)
+		if err != nil {
+			continue
+		}
+		n++
+		var b bytes.Buffer
+		if err := tf.Write(&b); err != nil {
+			continue
+		}
+		tf2, err := ParseString(b.String())
+		if err != nil {
+			fmt.Printf("REPLAY-CONFIRMED the css component %q is formatted to %q, which the parser rejects: %v\n", src, b.String(), err)
+			return
+		}
+		if a, c := strings.Join(cssProps(tf), "|"), strings.Join(cssProps(tf2), "|"); a != c || len(cssProps(tf)) == 0 {
+			fmt.Printf("REPLAY-CONFIRMED the css component %q has the constant properties %q; formatted to %q it has %q\n", src, a, b.String(), c)
+			return
+		}
+	}
+	fmt.Printf("REPLAY-NOT-REPRODUCED bounded search: css components with constant values holding runs of white space keep name and value; %d templates with one constant attribute (values built from character references, &, quotes; both quote kinds) format to an accepted template with the same attribute value, and that to itself\n", n)
 }
 `
 
